@@ -32,6 +32,9 @@ enum Node {
     ColrGlyph { gid: u16 },
     /// fmt = COLR paint format 12..=31
     Transform { fmt: u8, salt: u16, child: usize },
+    /// a transform paint with fixed, salt-free parameters (see `fixed_xf_paint`): identities of every
+    /// transform family, halves of exactly cancelling pairs, a variable one cancelling at coords [1.0]
+    FixedXf { kind: u8, child: usize },
     Composite { src: usize, mode: u8, backdrop: usize },
 }
 
@@ -106,7 +109,7 @@ impl Graph {
             },
             Node::Glyph { gid, child } => format!("GGlyph {} {}", gid, child),
             Node::ColrGlyph { gid } => format!("GColrGlyph {}", gid),
-            Node::Transform { child, .. } => format!("GTransform {}", child),
+            Node::Transform { child, .. } | Node::FixedXf { child, .. } => format!("GTransform {}", child),
             Node::Composite { src, mode, backdrop } => format!("GComposite {} {} {}", src, mode, backdrop),
         });
         let layers = copt(self.layers.as_ref().map(|l| clist(l.iter(), |r| format!("{}", r))));
@@ -122,7 +125,7 @@ impl Graph {
             return *v;
         }
         let v = match &self.nodes[i] {
-            Node::Glyph { child, .. } | Node::Transform { child, .. } => 1 + self.expanded_size(*child, memo),
+            Node::Glyph { child, .. } | Node::Transform { child, .. } | Node::FixedXf { child, .. } => 1 + self.expanded_size(*child, memo),
             Node::Composite { src, backdrop, .. } => {
                 1u64.saturating_add(self.expanded_size(*src, memo)).saturating_add(self.expanded_size(*backdrop, memo))
             }
@@ -149,6 +152,39 @@ fn color_line(stops: &[(f32, u16)], extend: w::Extend) -> w::ColorLine {
 }
 fn var_color_line(stops: &[(f32, u16)], extend: w::Extend, vib: u32) -> w::VarColorLine {
     w::VarColorLine::new(extend, stops.len() as u16, stops.iter().map(|(o, p)| w::VarColorStop::new(f2(*o), *p, f2(1.0), vib)).collect())
+}
+
+const N_FIXED_XF: u8 = 18;
+/// kinds 0..=11: the identity in every transform family (accumulated brush transform == Transform::default()
+/// although brush_transform.is_some()); 12: variable translate that is the identity only at coords [1.0]
+/// (base (-100, 100), deltas (+100, -100)); 13/14, 15/15, 16/17: halves of pairs whose product is exactly
+/// the identity in f32.
+fn fixed_xf_paint(kind: u8, c: w::Paint) -> w::Paint {
+    use w::Paint as P;
+    let one = f2(1.0);
+    let zero = f2(0.0);
+    const NOVAR: u32 = 0xFFFF_FFFF;
+    match kind {
+        0 => P::translate(c, fw(0), fw(0)),
+        1 => P::scale(c, one, one),
+        2 => P::scale_uniform(c, one),
+        3 => P::rotate(c, zero),
+        4 => P::skew(c, zero, zero),
+        5 => P::transform(c, w::Affine2x3::new(Fixed::ONE, Fixed::ZERO, Fixed::ZERO, Fixed::ONE, Fixed::ZERO, Fixed::ZERO)),
+        6 => P::scale_around_center(c, one, one, fw(70), fw(-9)),
+        7 => P::scale_uniform_around_center(c, one, fw(70), fw(-9)),
+        8 => P::rotate_around_center(c, zero, fw(70), fw(-9)),
+        9 => P::skew_around_center(c, zero, zero, fw(70), fw(-9)),
+        10 => P::var_translate(c, fw(0), fw(0), NOVAR),
+        11 => P::var_transform(c, w::VarAffine2x3::new(Fixed::ONE, Fixed::ZERO, Fixed::ZERO, Fixed::ONE, Fixed::ZERO, Fixed::ZERO, NOVAR)),
+        12 => P::var_translate(c, fw(-100), fw(100), 0),
+        13 => P::translate(c, fw(37), fw(-12)),
+        14 => P::translate(c, fw(-37), fw(12)),
+        15 => P::scale(c, f2(-1.0), f2(-1.0)),
+        16 => P::var_translate(c, fw(50), fw(8), NOVAR),
+        17 => P::translate(c, fw(-50), fw(-8)),
+        _ => unreachable!(),
+    }
 }
 
 fn build_paint(g: &Graph, i: usize) -> w::Paint {
@@ -200,6 +236,7 @@ fn build_paint(g: &Graph, i: usize) -> w::Paint {
                 _ => unreachable!(),
             }
         }
+        Node::FixedXf { kind, child } => fixed_xf_paint(*kind, build_paint(g, *child)),
         Node::Transform { fmt, salt, child } => {
             let c = build_paint(g, *child);
             let s = *salt as i32 % 20000;
@@ -288,7 +325,7 @@ fn compile(g: &Graph) -> Option<Vec<u8>> {
             })
             .collect();
         colr.clip_list = Some(w::ClipList::new(1, clips.len() as u32, clips)).into();
-        if g.var_store || (0..g.clips.len()).any(|k| clip_shape(g, k) == 4) {
+        if g.var_store || (0..g.clips.len()).any(|k| clip_shape(g, k) == 4) || g.nodes.iter().any(|n| matches!(n, Node::FixedXf { kind: 12, .. })) {
             let regions = wv::VariationRegionList::new(1, vec![wv::VariationRegion::new(vec![wv::RegionAxisCoordinates::new(f2(0.0), f2(1.0), f2(1.0))])]);
             let data = wv::ItemVariationData::new(8, 0, vec![0], vec![100, 0x9C, 50, 7, 0xF0, 90, 1, 0x80]);
             colr.item_variation_store = Some(wv::ItemVariationStore::new(regions, vec![Some(data)])).into();
@@ -354,6 +391,8 @@ struct Rec {
     mode: u8,
     cached_calls: usize,
     cap: usize,
+    /// fill_glyph calls whose brush transform is Some(identity)
+    ident_brush: usize,
 }
 
 impl Rec {
@@ -405,6 +444,10 @@ impl ColorPainter for RecOverride {
         self.0.push(Ev::Fill(brush_kind(&b)))
     }
     fn fill_glyph(&mut self, g: GlyphId, t: Option<Transform>, b: Brush<'_>) {
+        if t == Some(Transform::default()) {
+            self.0.ident_brush += 1;
+            IDENT_BRUSH.fetch_add(1, std::sync::atomic::Ordering::Relaxed);
+        }
         self.0.push(Ev::FillGlyph(g.to_u32(), t.is_some(), brush_kind(&b)))
     }
     fn paint_cached_color_glyph(&mut self, g: GlyphId) -> Result<PaintCachedColorGlyph, PaintError> {
@@ -454,6 +497,7 @@ impl ColorPainter for RecDefault {
 }
 
 const EV_CAP: usize = 400_000;
+static IDENT_BRUSH: std::sync::atomic::AtomicU64 = std::sync::atomic::AtomicU64::new(0);
 
 /// the paint call in flight (start time, description): a watchdog thread turns a call that does not
 /// return within PAINT_BUDGET_S into an oracle failure ("painting terminates") and ends the run,
@@ -502,7 +546,7 @@ fn run_paint(bytes: &[u8], gid: u32, mode: u8, default_fill_glyph: bool, coords:
         let Some(glyph) = font.color_glyphs().get(GlyphId::new(gid)) else {
             return (5u8, vec![], false);
         };
-        let rec = Rec { ev: vec![], mode, cached_calls: 0, cap: EV_CAP };
+        let rec = Rec { ev: vec![], mode, cached_calls: 0, cap: EV_CAP, ident_brush: 0 };
         let (res, rec) = if default_fill_glyph {
             let mut p = RecDefault(rec);
             let r = glyph.paint(LocationRef::new(&coords), &mut p);
@@ -664,8 +708,22 @@ impl Gen<'_> {
         match self.rng.below(10) {
             0..=3 => {
                 let c = self.paint(depth - 1, glyph_budget);
-                let fmt = self.rng.range(*XF_FMTS.start() as i64, *XF_FMTS.end() as i64) as u8;
-                self.g.xf(fmt, c)
+                if self.rng.chance(1, 3) {
+                    // identity / exactly cancelling brush transforms
+                    let kind = self.rng.below(N_FIXED_XF as u64) as u8;
+                    let inner = self.g.add(Node::FixedXf { kind, child: c });
+                    match kind {
+                        13 => self.g.add(Node::FixedXf { kind: 14, child: inner }),
+                        14 => self.g.add(Node::FixedXf { kind: 13, child: inner }),
+                        15 => self.g.add(Node::FixedXf { kind: 15, child: inner }),
+                        16 => self.g.add(Node::FixedXf { kind: 17, child: inner }),
+                        17 => self.g.add(Node::FixedXf { kind: 16, child: inner }),
+                        _ => inner,
+                    }
+                } else {
+                    let fmt = self.rng.range(*XF_FMTS.start() as i64, *XF_FMTS.end() as i64) as u8;
+                    self.g.xf(fmt, c)
+                }
             }
             4..=6 if *glyph_budget > 0 => {
                 *glyph_budget -= 1;
@@ -917,6 +975,17 @@ fn main() {
                 if cls2 == 0 && dyck(&ev2) != Ok(0) {
                     fail("default-fill_glyph client: success reported but stream not well nested", st);
                 }
+                // the default-fill_glyph client's own stream also goes to the model (client mode + 10) whenever
+                // a fill_glyph occurred (otherwise it equals the other stream up to the pop_layer modes)
+                if ev.iter().any(|e| matches!(e, Ev::FillGlyph(..))) {
+                    st.count("fill_glyph_cases");
+                    if ev.iter().any(|e| matches!(e, Ev::FillGlyph(_, true, _))) {
+                        st.count("fill_glyph_cases.with_brush_transform");
+                    }
+                    if ev2.len() <= 600 {
+                        subs.push(format!("({},{},({},{}))", *mode as u32 + 10, gid, cls2, clist(ev2.iter(), ev_coq)));
+                    }
+                }
                 // --- distribution
                 for e in &ev {
                     let k = match e {
@@ -1130,6 +1199,47 @@ fn main() {
             run_graph(&g, "clip_shapes", &[1, 2, 3], &[0, 1], &mut rng, &mut st, &mut cw);
         }
     }
+    // ---- PaintGlyph subtrees on the optimised (fill_glyph) path whose accumulated brush transform is exactly the
+    // identity / almost the identity: every fixed transform alone, stacked twice, as cancelling pairs in both
+    // orders, and mixed with a salted transform; at every location; fills of every brush kind
+    {
+        let chains: Vec<Vec<u8>> = {
+            let mut v: Vec<Vec<u8>> = (0..N_FIXED_XF).map(|k| vec![k]).collect();
+            for k in 0..N_FIXED_XF {
+                v.push(vec![k, k]);
+            }
+            for (a, b) in [(13u8, 14u8), (14, 13), (16, 17), (17, 16), (12, 0), (0, 12), (3, 8), (1, 6), (5, 11), (13, 17), (12, 12)] {
+                v.push(vec![a, b]);
+            }
+            v.push(vec![13, 0, 14]);
+            v.push(vec![15, 10, 15]);
+            v.push(vec![13, 255, 14]); // 255 = a salted (non identity) transform in between
+            v.push(vec![255]);
+            v.push(vec![]);
+            v
+        };
+        for (ci, chain) in chains.iter().enumerate() {
+            for loc in 0..5usize {
+                let mut g = Graph::default();
+                let leaf = g.fill([0u8, 2, 9, 14, 7][(ci + loc) % 5]);
+                let mut cur = leaf;
+                for k in chain.iter().rev() {
+                    cur = if *k == 255 { g.xf(14, cur) } else { g.add(Node::FixedXf { kind: *k, child: cur }) };
+                }
+                let gl = g.add(Node::Glyph { gid: 40 + ci as u16, child: cur });
+                // the same glyph paint directly, under a layer range, under a composite and through PaintColrGlyph
+                let s2 = g.solid();
+                let comp = g.add(Node::Composite { src: gl, mode: 9, backdrop: s2 });
+                let cg = g.add(Node::ColrGlyph { gid: 1 });
+                g.layers = Some(vec![gl, comp, cg]);
+                let root = g.add(Node::Layers { start: 0, num: 3 });
+                g.base = Some(vec![(1, gl), (2, root), (3, cur)]);
+                g.force_coords = Some(loc);
+                g.var_store = loc % 2 == 1;
+                run_graph(&g, "identity_brush", &[1, 2, 3], &[0], &mut rng, &mut st, &mut cw);
+            }
+        }
+    }
     // ---- 5. random graphs and v0 tables
     let n_random = if thorough { 8000 } else { 900 };
     for i in 0..n_random {
@@ -1165,6 +1275,7 @@ fn main() {
     let shards = cw.finish();
     st.v.insert("shards".into(), shards.into());
     st.v.insert("model_cases".into(), (*st.counters.get("model_subcases").unwrap_or(&0)).into());
+    st.v.insert("fill_glyph_calls_with_identity_brush_transform".into(), IDENT_BRUSH.load(std::sync::atomic::Ordering::Relaxed).into());
     st.v.insert("max_paint_seconds".into(), max_dt.into());
     st.v.insert("max_callbacks".into(), (max_ev as u64).into());
     st.write(&dir, "abstract paint graphs (chains of 61..66 edges of every edge kind, rho-shaped cycles through layers/PaintColrGlyph, errors after a push under every wrapper, all 32 paint formats, wide/out-of-range layer ranges, random graphs, v0 tables) compiled with write-fonts and painted under 4 client cache behaviours at random variation locations; non-trivial = >= 3 callbacks or a cycle/depth error (distinct by graph, glyph, mode, location)");
